@@ -115,7 +115,11 @@ def run(ctx):
         with warnings.catch_warnings():
             warnings.simplefilter("ignore")
             vals_arg, vals_how = dom.gas_values_form(vals, k)    # what the keys say decides, not the order they were inserted in
-            tb = build_pvt_gas(vals_arg, g["dry"], pmax)
+            try:
+                tb = build_pvt_gas(vals_arg, g["dry"], pmax)
+            except Exception as e:  # noqa: BLE001
+                bad("build_pvt_gas fails for an admissible gas description", dict(gas_values=vals, gas_values_given_as=vals_how, dryness=g["dry"], maximum_pressure=pmax), repr(e)[:200])
+                continue
         inp = dict(gas_values=vals, gas_values_given_as=vals_how, dryness=g["dry"], maximum_pressure=pmax)
         P = np.asarray(tb["pressure"], float)
         ev += 1
